@@ -146,4 +146,4 @@ const Trailer = "~cedarverif-trailer~"
 
 // TrailerBytes is the trailer as it appears in the plaintext of a message whose
 // last part is written in the given state.
-func TrailerBytes(state string) []byte { return refcodec.AdString(Trailer, state == Enc) }
+func TrailerBytes(state string) []byte { return refcodec.C08AdString(Trailer, state == Enc) }
